@@ -26,7 +26,8 @@ DRIVER_EXE = "drv_compound"
 RULE = ("one case per row of the default database (all 1548, exhaustive): reading, expected factor, written "
         "precision and verdict of the rule, model vs independent Python reading vs the real code (Convert on "
         "floats, ndarrays, lists and tuples, asked through the quantity type and through every category of it, "
-        "also via the category's default unit; Scalar arithmetic); plus seeded symbol strings for the grammar (table symbols recombined with '.', '/', "
+        "also via the category's default unit; Scalar arithmetic on parts pre-converted to base units and on parts left "
+        "to the library's own unit matching); plus seeded symbol strings for the grammar (table symbols recombined with '.', '/', "
         "exponents, multipliers, and malformed ones); distinct = distinct symbol/string; non-trivial = the rule "
         "reads the row (compound or SI) / the string decomposes")
 EXHAUSTIVE = {"quick": True, "thorough": True}
@@ -228,6 +229,45 @@ def _real_power_route(db, kind, parts):
     return float(acc.GetValue([(base, e)]))
 
 
+def _real_matched(db, kind, parts):
+    """The amount `1 named unit` as a number of coherent base units, left to the library's own unit matching:
+    A = the product of real Scalars in the component units THEMSELVES, B = the same product with one base unit
+    per factor; A / B is dimensionless and its value is the factor (the matching of B's units to A's scales by
+    each unit ratio raised to its exponent).  None for readings with an offset unit or of SI kind."""
+    from barril.units import Scalar
+
+    if kind != "compound":
+        return None
+    a = b = None
+    for u, e, p in parts:
+        info = db.unit_to_unit_info[u]
+        qt = info.quantity_type
+        base = db.quantity_types[qt][0].unit
+        if float(db.Convert(qt, u, base, 0.0)) != 0.0:
+            return None
+        cat = db.GetDefaultCategory(u) or qt
+        bcat = db.GetDefaultCategory(base) or qt
+        for acc_is_a, f in ((True, Scalar(float(p), u, cat)), (False, Scalar(1.0, base, bcat))):
+            g = f
+            for _ in range(abs(e) - 1):
+                g = g * f
+            cur = a if acc_is_a else b
+            if cur is None:
+                cur = g if e > 0 else (1.0 / g)
+            else:
+                cur = cur * g if e > 0 else cur / g
+            if acc_is_a:
+                a = cur
+            else:
+                b = cur
+    r = a / b
+    if not isinstance(r, Scalar):
+        return float(r)
+    if r.GetUnit() not in ("", None):
+        raise ValueError("A / B is not dimensionless: %r" % (r.GetUnit(),))
+    return float(r.GetValue())
+
+
 def _parts_json(kind, parts):
     if kind == "si":
         return dict(kind="si", base=parts[0][0], ex=parts[0][1])
@@ -269,6 +309,13 @@ def impl(c, ctx):
         out["real_composed"] = float(_real_composed(ctx.db, j["kind"], j["parts"])).hex()
     except Exception as e:
         out["real_composed_err"] = "%s: %r" % (err_kind(e), e)
+    try:
+        rm = _real_matched(ctx.db, j["kind"], j["parts"])
+        if rm is not None:
+            out["real_matched"] = float(rm).hex()
+            ctx.notes["matched_rows"] = ctx.notes.get("matched_rows", 0) + 1
+    except Exception as e:
+        out["real_matched_err"] = "%s: %r" % (err_kind(e), e)
     try:
         pr = _real_power_route(ctx.db, j["kind"], j["parts"])
         if pr is not None:
@@ -332,6 +379,13 @@ def agree(c, io, mo, ctx):
         e = qparse(m["expected"])
         if not close(r, e, abs(e) * 64):
             return "composition by real Scalar arithmetic %r is not the model's product %s" % (r, float(e))
+    if "real_matched" in i:
+        r = float.fromhex(i["real_matched"])
+        e = qparse(m["expected"])
+        if not close(r, e, abs(e) * 256):
+            return "composition left to the library's unit matching %r is not the model's product %s" % (r, float(e))
+    elif "real_matched_err" in i and "real_composed" in i:
+        return "composition left to the library's unit matching raised: " + i["real_matched_err"]
     elif "real_composed_err" in i:
         return "real Scalar composition raised: " + i["real_composed_err"]
     if "real_power_route" in i:
@@ -394,6 +448,15 @@ def oracle(c, ctx):
                     parts=_parts_json(kind, parts), error=repr(e))
     if not (math.isfinite(named) and math.isfinite(composed)) or composed == 0.0:
         return dict(clause="non-finite or zero factor", symbol=s, named=named, composed=composed)
+    try:
+        matched = _real_matched(db, kind, parts)
+    except Exception as e:
+        return dict(clause="the parts of the named unit cannot be combined by Scalar arithmetic with unit matching",
+                    symbol=s, parts=_parts_json(kind, parts), error=repr(e))
+    if matched is not None and not abs(matched - composed) <= 1e-9 * abs(composed):
+        return dict(clause="composition of the parts depends on the route: pre-converted to base units vs left to "
+                           "the library's unit matching", symbol=s, parts=_parts_json(kind, parts),
+                    pre_converted=composed, matched=matched)
     try:
         pr = _real_power_route(db, kind, parts)
     except Exception as e:
